@@ -237,12 +237,14 @@ func allChecksRaw() []*Check {
 				gjf("C06.md.n3", "VerifC06", 3, "C06.nil", "C06.exact.count", "C06.exact.kind", "C06.untouched", "C06.inside", "C06.exists.err", "C06.exists.unchanged"),
 				gjf("C06.root.n3", "VerifC06Root", 3, "C06.root.nil", "C06.root.exact.count", "C06.root.exact.kind", "C06.root.untouched", "C06.root.exists.err", "C06.root.exists.unchanged"),
 				gjf("C06.fault.n3", "VerifC06Fault", 3, "C06.fault.reported/longname", "C06.fault.reported/targetisfile"),
+				gjf("C06.dup.n3", "VerifC06Dup", 3, "C06.dup.kind", "C06.dup.count", "C06.dup.nil", "C06.dup.inside", "C06.dup.end"),
 				gj("C06.bytes.e4n5", "VerifC06Bytes", 45, "C06.bytes.nil", "C06.bytes.file", "C06.bytes.dir", "C06.bytes.dir.made"),
 			},
 			Thorough: []Job{
 				gjf("C06.md.n4", "VerifC06", 4, "C06.nil", "C06.exact.count", "C06.exact.kind", "C06.untouched", "C06.inside", "C06.exists.err", "C06.exists.unchanged"),
 				gjf("C06.root.n4", "VerifC06Root", 4, "C06.root.nil", "C06.root.exact.count", "C06.root.exact.kind", "C06.root.untouched", "C06.root.exists.err", "C06.root.exists.unchanged"),
 				gjf("C06.fault.n4", "VerifC06Fault", 4, "C06.fault.reported/longname", "C06.fault.reported/targetisfile"),
+				gjf("C06.dup.n4", "VerifC06Dup", 4, "C06.dup.kind", "C06.dup.count", "C06.dup.nil", "C06.dup.inside", "C06.dup.end"),
 				gj("C06.bytes.e6n8", "VerifC06Bytes", 68, "C06.bytes.nil", "C06.bytes.file", "C06.bytes.dir", "C06.bytes.dir.made"),
 			},
 			Bounds: "forests of N rows with distinct root names / programs of N nodes (quick 3, thorough 4), names opaque single path elements, 0..2 opaque extensions (suffix tests decided by the solver, so whole-name and overlapping suffixes are included), target present / missing / holding one unrelated file or directory; one root pre-existing as file or directory; refusals: a node with an over-long name (ENAMETOOLONG on every operation touching it), the target being a regular file. Byte level (file rule on real bytes, no path contracts): root + one child of 5 (quick) / 8 (thorough) arbitrary ASCII name bytes, optionally a grandchild, one extension of 4 / 6 arbitrary bytes, both families. Outside: other OS refusals, symlinks, permissions, massive mode (C10).",
